@@ -9,8 +9,11 @@
 // while its queue is non-empty (lost wake-up; this also covers "shutdown + join completes" and "queued before start is
 // delivered", because the NULL Message / the early Messages sit in that queue), and never livelocks.
 //
-// case line:   m=<s|w>,n=<threads>,seed=<N|->,sch=<c.c.c>|<tid>:<op>;<tid>:<op>;...
+// case line:   m=<s|w>,k=<d|e>,n=<threads>,seed=<N|->,sch=<c.c.c>|<tid>:<op>;<tid>:<op>;...
 //    m: s = socket pair, w = wait-condition.   thread 0 is the owner.
+//    k: d = the default InternalThreadEntry (blocks in WaitForNextMessageFromOwner), e = an event-driven InternalThreadEntry
+//       that select()s on GetInternalThreadWakeupSocket() first and then polls WaitForNextMessageFromOwner(ref, 0) until it
+//       times out (the MessageTransceiverThread / AsyncDataIO pattern; socket mode only).
 //    op: si:<id> sin (SendMessageToInternalThread, Message / NULL)   so:<id> son (SendMessageToOwner)
 //        rp rn rt (GetNextReplyFromInternalThread poll / never / timed)   st (StartInternalThread)
 //        sd0 sd1 (ShutdownInternalThread(false/true))   jn (WaitForInternalThreadToExit)   gs (GetOwnerWakeupSocket)
@@ -48,7 +51,7 @@ enum { W_POLL = 0, W_NEVER, W_TIMED };
 struct Op { int kind; long arg; bool null; };     // arg: message id / wake kind / wait flag
 
 struct Case {
-   bool sockets; int n; bool haveSeed; uint64_t seed; std::vector<Choice> sched;
+   bool sockets; bool evd; int n; bool haveSeed; uint64_t seed; std::vector<Choice> sched;
    std::vector<std::vector<Op> > prog;
    std::string head, body;
 };
@@ -74,12 +77,13 @@ static bool parse_case(const std::string & line, Case & c)
    const size_t bar = line.find('|');
    if (bar == std::string::npos) return false;
    c.head = line.substr(0, bar); c.body = line.substr(bar+1);
-   c.sockets = true; c.n = 0; c.haveSeed = false; c.seed = 0; c.sched.clear();
+   c.sockets = true; c.evd = false; c.n = 0; c.haveSeed = false; c.seed = 0; c.sched.clear();
    std::vector<std::string> hs = split(c.head, ',');
    for (size_t i=0; i<hs.size(); i++)
    {
       const std::string & h = hs[i];
       if (h.compare(0, 2, "m=") == 0) {if (h == "m=s") c.sockets = true; else if (h == "m=w") c.sockets = false; else return false;}
+      else if (h.compare(0, 2, "k=") == 0) {if (h == "k=d") c.evd = false; else if (h == "k=e") c.evd = true; else return false;}
       else if (h.compare(0, 2, "n=") == 0) c.n = atoi(h.c_str()+2);
       else if (h.compare(0, 5, "seed=") == 0) {if (h.size() > 5 && h[5] != '-') {c.haveSeed = true; c.seed = strtoull(h.c_str()+5, NULL, 10);}}
       else if (h.compare(0, 4, "sch=") == 0)
@@ -120,6 +124,7 @@ static bool parse_case(const std::string & line, Case & c)
    if (c.n < maxT+1) c.n = maxT+1;
    if (c.n < 1) c.n = 1;
    if (c.n > 16) return false;
+   if (c.evd && !c.sockets) return false;     // there is no wake-up socket to select() on
    c.prog.assign(c.n, std::vector<Op>());
    for (size_t i=0; i<toks.size(); i++) c.prog[toks[i].first].push_back(toks[i].second);
    return true;
@@ -151,8 +156,10 @@ static Run * g_run = NULL;
 class TestThread : public Thread
 {
 public:
-   explicit TestThread(bool useSockets) : Thread(useSockets) {}
+   TestThread(bool useSockets, bool evd) : Thread(useSockets), _evd(evd) {}
    virtual status_t MessageReceivedFromOwner(const MessageRef & ref, uint32 numLeft);
+   virtual void InternalThreadEntry();
+   const bool _evd;
 };
 
 struct Run {
@@ -240,6 +247,7 @@ static void refresh_readable()
 static int WrapperHook(int kind, const void * obj, const void * arg)
 {
    if (kind == K_ATOMIC_INC || kind == K_ATOMIC_DEC || kind == K_ATOMIC_CAS || g_run == NULL) return g_inner(kind, obj, arg);
+   if ((kind == K_MUTEX_LOCK || kind == K_MUTEX_UNLOCK || kind == K_MUTEX_TRYLOCK) && chan_of_obj(obj) < 0) return g_inner(kind, obj, arg);   // not one of ours: never a decision
    if (kind != K_THREAD_START) refresh_readable();
    if (kind == K_SEM_WAIT || kind == K_SEM_TIMEDWAIT)
    {
@@ -290,6 +298,25 @@ status_t TestThread :: MessageReceivedFromOwner(const MessageRef & ref, uint32 n
       (void) SendMessageToOwner((replies[i] < 0) ? MessageRef() : GetMessageFromPool((uint32) replies[i]));
    }
    return quit ? B_ERROR("quit") : B_NO_ERROR;
+}
+
+// the event-driven way to write the internal thread (MessageTransceiverThread, AsyncDataIO): block on the wake-up socket, then poll
+void TestThread :: InternalThreadEntry()
+{
+   if (!_evd) {Thread::InternalThreadEntry(); return;}
+   while(true)
+   {
+      if (_threadData[MESSAGE_THREAD_INTERNAL]._messageSocket.GetFileDescriptor() < 0) break;
+      // select() on GetInternalThreadWakeupSocket(): under the controlled scheduler the blocking happens inside the scheduler
+      if (muscle_verif_hook_ref()) (void) muscle_verif_hook_ref()(MUSCLE_VERIF_SEM_WAIT, &_threadData[MESSAGE_THREAD_INTERNAL], 0);
+      bool quit = false;
+      MessageRef ref; uint32 numLeft = 0;
+      while(WaitForNextMessageFromOwner(ref, 0, &numLeft).IsOK())
+      {
+         if (MessageReceivedFromOwner(ref, numLeft).IsError()) {quit = true; break;}
+      }
+      if (quit) break;
+   }
 }
 
 static void on_event(const Event & e)
@@ -411,7 +438,7 @@ static Options base_options()
 static void setup_run(Run & r, const Case & c, Scheduler & s)
 {
    r.c = &c;
-   r.tt = new TestThread(c.sockets);
+   r.tt = new TestThread(c.sockets, c.evd);
    for (int ch=0; ch<2; ch++) {r.snap[ch].clear(); r.order[ch].clear(); r.nrecv[ch] = 0; r.sentCount[ch].clear(); r.recvCount[ch].clear();}
    r.oracle.clear();
    g_readable[0] = g_readable[1] = 0;
@@ -521,7 +548,7 @@ static void explore_case(const Case & c, int maxPre, size_t maxRuns)
       [&](const Result & res) {
          std::string sch = FormatSchedule(res.Schedule());
          for (size_t i=0; i<sch.size(); i++) if (sch[i] == ',') sch[i] = '.';
-         printf("m=%c,n=%d,seed=-,sch=%s|%s\n", c.sockets ? 's' : 'w', c.n, sch.c_str(), c.body.c_str());
+         printf("m=%c,k=%c,n=%d,seed=-,sch=%s|%s\n", c.sockets ? 's' : 'w', c.evd ? 'e' : 'd', c.n, sch.c_str(), c.body.c_str());
          if (res.status == Result::COMPLETED)
          {
             if (cur->tt->IsInternalThreadRunning()) (void) cur->tt->WaitForInternalThreadToExit();
